@@ -177,7 +177,11 @@ class C17(RailsProp):
                 k = min(len(names), sc.get("per_position", 5))
                 pick = names if k >= len(names) else d.sample(names, k, "pick", p)
                 # the trouble-makers are always included
-                for must in ("empty", "jinja-expr", "shaped-steps-inline-jinja", d.choice(corpus.SHAPED, "shaped", p)):
+                # always included: the classic trouble-makers, one position-shaped reply, and the replies that are
+                # dangerous for this particular call (a generated flow that only waits; literals for value generation)
+                lab = self._base_tasks[p]
+                special = ("shaped-steps-user-only",) if "next_steps" in lab else (("ellipsis", "python-import") if lab == "v2-value" else ())
+                for must in ("empty", "jinja-expr", "shaped-steps-inline-jinja", d.choice(corpus.SHAPED, "shaped", p)) + special:
                     if must not in pick:
                         pick.append(must)
                 for n in pick:
